@@ -67,14 +67,15 @@ impl rustc_driver::Callbacks for Cb {
     }
 }
 
-fn main() {
+fn main() -> std::process::ExitCode {
     let mut args: Vec<String> = std::env::args().collect();
     // under RUSTC_WORKSPACE_WRAPPER argv[1] is the path of the real rustc
     if args.len() > 1 && (args[1].ends_with("rustc") || args[1].contains("/rustc")) {
         args.remove(1);
     }
     let mut cb = Cb;
-    rustc_driver::catch_with_exit_code(|| rustc_driver::run_compiler(&args, &mut cb));
+    // propagate rustc's verdict: a tree that does not compile must fail the cargo invocation (no facts, no verdict)
+    rustc_driver::catch_with_exit_code(|| rustc_driver::run_compiler(&args, &mut cb))
 }
 
 // ---------------------------------------------------------------------------
